@@ -31,7 +31,7 @@ func controlsFor(prop string) []control {
 			continue
 		}
 		var m struct {
-			Property string `json:"property"`
+			Property   string   `json:"property"`
 			AlsoBreaks []string `json:"also_breaks"`
 		}
 		if json.Unmarshal(b, &m) != nil {
